@@ -12,7 +12,7 @@ import time
 import xml.etree.ElementTree as ET
 
 VERIF = os.path.dirname(os.path.dirname(os.path.abspath(__file__)))
-BUILD = os.path.join(VERIF, "build")
+BUILD = os.environ.get("VERIF_BUILD") or os.path.join(VERIF, "build")   # VERIF_BUILD/VERIF_REPO: experiments against a scratch copy of the repository
 MASK = (1 << 64) - 1
 
 
@@ -70,7 +70,9 @@ def exe(variant):
 def build(variants, quiet=True):
     """Incremental rebuild of cppcheck-sim from /repo's current working tree."""
     for v in variants:
-        cmd = ["make", "-s", "-C", os.path.join(VERIF, "sim"), "-j16", "VARIANT=" + v]
+        cmd = ["make", "-s", "-C", os.path.join(VERIF, "sim"), "-j16", "VARIANT=" + v, "OUT=" + os.path.join(BUILD, v)]
+        if os.environ.get("VERIF_REPO"):
+            cmd.append("REPO=" + os.environ["VERIF_REPO"])
         t0 = time.time()
         p = subprocess.run(cmd, stdout=subprocess.PIPE, stderr=subprocess.STDOUT, text=True)
         if p.returncode != 0:
@@ -217,7 +219,7 @@ def fmt_diff(oa, ob, na="subject", nb="reference", limit=6):
 
 
 # --------------------------------------------------------------------------- plan / run
-PLAN_KEYS = ("seed", "sched", "pct_depth", "pct_steps", "chunk", "crash_op", "crash_prefix", "sel_timeout",
+PLAN_KEYS = ("seed", "sched", "pct_depth", "pct_steps", "chunk", "crash_op", "crash_prefix", "crash_sig", "sel_timeout",
              "wait_lag", "loadavg", "readdir_shuffle", "dt_unknown", "clock", "max_steps", "trace_sched")
 
 
@@ -271,6 +273,8 @@ def trace_hash(lines):
     """Interleaving identity. File names that embed the process id (temporary dump / file-list names) are normalised."""
     h = hashlib.sha256()
     for l in lines:
+        if l.startswith("V ") and " alloc " in l:
+            continue    # allocator statistics: a reach probe, not a decision
         if l.startswith("O "):
             l = _PIDLIKE.sub("N", l)
         elif ".dump" in l or ".ctu-info" in l or ".txt" in l:
@@ -283,7 +287,14 @@ def trace_hash(lines):
 BASE_ENV = {"PATH": "/usr/bin:/bin", "LANG": "C", "LC_ALL": "C", "HOME": "/nonexistent"}
 
 
-def run_sim(variant, cwd, args, plan=None, roots=(), workdir=None, tag="run", env_extra=None, timeout=120):
+def strip_prefix(findings, prefix):
+    """With --project cppcheck reports absolute paths: make them relative to the scenario's tree again."""
+    pre = prefix.rstrip("/") + "/"
+    cut = lambda p: p[len(pre):] if p.startswith(pre) else p
+    return [Finding(f[:6] + (tuple((cut(l[0]),) + tuple(l[1:]) for l in f[6]), f[7], cut(f[8]))) for f in findings]
+
+
+def run_sim(variant, cwd, args, plan=None, roots=(), workdir=None, tag="run", env_extra=None, timeout=120, strip=None):
     """One simulated run of the real CLI. plan=None -> pass-through (no simulator)."""
     env = dict(BASE_ENV)
     if env_extra:
@@ -328,6 +339,8 @@ def run_sim(variant, cwd, args, plan=None, roots=(), workdir=None, tag="run", en
         r.findings, r.xml_ok = parse_template_findings(r.stderr), (rc >= 0)
     else:
         r.findings, r.xml_ok = [], False
+    if strip:
+        r.findings = strip_prefix(r.findings, strip)
     r.trace = []
     if trace_path and os.path.exists(trace_path):
         with open(trace_path, encoding="utf-8", errors="replace") as f:
@@ -335,6 +348,11 @@ def run_sim(variant, cwd, args, plan=None, roots=(), workdir=None, tag="run", en
         if r.trace and r.trace[-1] == "":
             r.trace.pop()
     r.trace_hash = trace_hash(r.trace) if r.trace else ""
+    keep = os.environ.get("VERIF_KEEP_TRACES")     # debugging aid: keep every trace (named by its hash) with the command line
+    if keep and r.trace:
+        os.makedirs(keep, exist_ok=True)
+        with open(os.path.join(keep, "%s-%s-%d.trace" % (tag, r.trace_hash, os.getpid())), "w") as f:
+            f.write("# " + " ".join(args) + "\n# cwd " + cwd + "\n" + "\n".join(r.trace) + "\n")
     return r
 
 
